@@ -308,6 +308,10 @@ func checkC18(c *Check) {
 	c.mustPass(pg, "O-C18.4", "delta URLs come from the base's freshest-CRL extension", "returning a bundle with delta", withDelta, A("+IsNil("+perr+")"))
 	// first advertised location that answers: immediate return on success, plain ascending range
 	c.noPathFrom(pg, "O-C18.4", "first answering location wins", "after a delta download succeeded no further location is tried", A("+IsNil("+delta+"#1)"), edgeSources(pg, RangeNext(urls)), nil)
+	// ... and its answer is what Fetch goes on with: no failure between the successful download
+	// and the cache write (an earlier location's error must not outlive a later success)
+	afterSet := AnyOf(CallG(setG), CallG(setG0))
+	c.noPathFrom(pg, "O-C18.4", "an answering location is not discarded", "after a delta download succeeded Fetch does not fail before the bundle is written to the cache", A("+IsNil("+delta+"#1)"), returnsWhere(pg, func(s *PState) bool { return !retNilErr(s, 1) }), &afterSet)
 	// every failed location leads to the next one or to an error (never silently dropped)
 	c.perIteration(pg, "O-C18.4", "a location is skipped only after its download failed", "the loop moves to the next location only after the download from this one failed", urls, A("-IsNil("+delta+"#1)"))
 	// sentinel origins
